@@ -29,7 +29,7 @@ ASSUMPTIONS = ["names use code points assigned before Unicode 5.0 (Latin, Greek,
                "Python's unicodedata NFC and the bundled utf8proc agree",
                "the attribute name _FillValue (extra type/length/ELATEFILL rules) is excluded from the name pool",
                "attribute values are drawn inside the common range of memory and external type (range errors belong to C09)",
-               "both files of a two-file history have the same CDF version (copy_att of a CDF-5 type into a CDF-1/2 file is not specified)",
+               "copy_att of a CDF-5-only type into a CDF-1/2 file must be refused like the corresponding put_att (NC_ESTRICTCDF2): anything else leaves a file that is not of its declared version",
                "error codes are asserted only for the conditions listed in pv/schema.py (man page, pnetcdf.h comments, check_name.c); "
                "when several conditions apply any of their codes is accepted",
                "k=2 histories execute every (collective) metadata call with identical arguments on both ranks"]
@@ -135,7 +135,7 @@ class Gen:
         self.pool = pool            # [(raw, nfc)]
         self.fmt = fmt
         self.ctr = 0
-        self.legal_xt = list(range(1, 7)) if fmt != 5 else list(range(1, 12))
+        self.legal_xt = list(range(1, 7)) if fmt != 5 else list(range(1, 12))       # replaced per operation by the file's own set
 
     # -- names
     def spelling(self, nname):
@@ -358,7 +358,9 @@ def case_strategy(draw, tier="quick"):
                 seen.add(raw)
                 pool.append((raw, nfc(raw)))
     hs = [draw_hs(draw) for _ in range(2 if two else 1)]
-    m = S.Model(fmt, hs)
+    # the second file of a two-file history may have another CDF version (copy_att across versions)
+    fmts = [fmt, draw(st.sampled_from([1, 2, 5])) if (two and chance(draw, 45)) else fmt][:2 if two else 1]
+    m = S.Model(fmt, hs, fmts)
     g = Gen(draw, m, pool, fmt)
     nops = draw(st.integers(6, 36 if not big else 60))
     prelude = ["def_dim", "def_dim", "def_var", "def_var", "put_att", "put_att", "put_att"]
@@ -367,6 +369,8 @@ def case_strategy(draw, tier="quick"):
     for i in range(nops):
         fi = 1 if (two and chance(draw, 22)) else 0
         f = m.files[fi]
+        g.fmt = f.fmt
+        g.legal_xt = list(range(1, 7)) if f.fmt != 5 else list(range(1, 12))
         if i < len(prelude) and chance(draw, 80):
             kind = prelude[i]
         else:
@@ -398,7 +402,7 @@ def case_strategy(draw, tier="quick"):
                 pend[0] = 0
             m.apply(op)
         ops.append(op)
-    return {"fmt": fmt, "k": k, "two": two, "hs": hs, "ops": ops}
+    return {"fmt": fmt, "fmts": fmts, "k": k, "two": two, "hs": hs, "ops": ops}
 
 
 # ------------------------------------------------------------------ script
@@ -425,7 +429,7 @@ def build(case):
     k = case["k"]
     p = Prog(k=k)
     nfiles = 2 if case["two"] else 1
-    mode = {1: 0, 2: 0x200, 5: 0x20}[case["fmt"]]
+    fmts = case.get("fmts") or [case["fmt"]] * nfiles
     ninfo = [0]
 
     def info_for(hs):
@@ -436,7 +440,7 @@ def build(case):
         p.op("info", expect=None, i=slot, **{"h__" + S.HINT[kk]: hx(str(v)) for kk, v in hs.items()})
         return {"info": slot}
     for fi in range(nfiles):
-        p.op("create", step=True, f="f%d" % fi, path=hx(PATHS[fi]), mode=mode, **info_for(case["hs"][fi]))
+        p.op("create", step=True, f="f%d" % fi, path=hx(PATHS[fi]), mode={1: 0, 2: 0x200, 5: 0x20}[fmts[fi]], **info_for(case["hs"][fi]))
     recs = []
     for i, op in enumerate(case["ops"]):
         kd = op["op"]
@@ -599,7 +603,7 @@ def evaluate(case, b, res, d, labels, opstat):
     probs = b.p.evaluate(res)          # create / close / open return codes
     if probs:
         return probs, False
-    m = S.Model(case["fmt"], case["hs"])
+    m = S.Model(case["fmt"], case["hs"], case.get("fmts"))
     inv = {v: kk for kk, v in E.items()}
     trig = look = reop = False
     for i, (op, r) in enumerate(zip(case["ops"], b.recs)):
@@ -717,6 +721,8 @@ def run_case(ctx, case):
     labels.add("fmt%d" % case["fmt"])
     if case["two"]:
         labels.add("two_files")
+        if len(set(case.get("fmts") or [0])) > 1:
+            labels.add("two_files_different_versions")
     for hs in case["hs"]:
         for kk in ("dim", "var", "gattr", "vattr"):
             labels.add("hs_%s_%s" % (kk, hs.get(kk, "default")))
